@@ -336,12 +336,12 @@ macro "wait_leaf" : tactic => `(tactic| (fx_exec [WaitCtl] <;> fx_abs []))
 set_option hygiene false in
 /-- one iteration of a futex wait loop (`inp1` = the oracle): case analysis on the values the load of the futex word,
 FUTEX_WAIT, `errno` (twice on the `urcu_die` path) and `urcu_die` return; `leaf` closes each case -/
-macro "wait_body_with" leaf:tacticSeq : tactic =>
+macro "wait_body_at" a:term:max "with" leaf:tacticSeq : tactic =>
   `(tactic| (
     cases inp1 with
     | nil => ($leaf)
     | cons v r1 =>
-      by_cases hv : v = .int (-1)
+      by_cases hv : v = .int $a
       · subst hv
         cases r1 with
         | nil => ($leaf)
@@ -363,8 +363,10 @@ macro "wait_body_with" leaf:tacticSeq : tactic =>
                     | nil => ($leaf)
                     | cons d r5 => ($leaf)
       · cases v with
-        | int n => have hn : n ≠ -1 := fun h => hv (by rw [h]); ($leaf)
+        | int n => have hn : n ≠ $a := fun h => hv (by rw [h]); ($leaf)
         | ptr l => ($leaf)))
+
+macro "wait_body_with" leaf:tacticSeq : tactic => `(tactic| wait_body_at (-1) with $leaf)
 
 macro "wait_body" : tactic => `(tactic| wait_body_with wait_leaf)
 
@@ -453,6 +455,172 @@ macro "wake_cases" leaf:tacticSeq : tactic =>
       · cases v with
         | int n => have hn : n ≠ -1 := fun h => hv (by rw [h]); ($leaf)
         | ptr l => ($leaf)))
+
+/-! ## state-dependent abstraction; partial-correctness loop rule
+
+Used for the wait nodes (`Src/FutexWaitNode.lean`): the same source access `uatomic_load(&wait->state)` is a different L2
+label in different phases, so the abstraction looks at the local state; and `exec` can fail there (a `&` on a loaded
+value that is not a non-negative integer), so the theorems are stated for every run that returns `.ok`. -/
+
+def acceptS {σ lab : Type} (abs : σ → Event → Option (List lab)) (step : σ → lab → Option σ) :
+    σ → List Event → Option σ
+  | s, [] => some s
+  | s, e :: es =>
+    match abs s e with
+    | none => none
+    | some ls =>
+      match runA step s ls with
+      | none => none
+      | some s1 => acceptS abs step s1 es
+
+def labelsS {σ lab : Type} (abs : σ → Event → Option (List lab)) (step : σ → lab → Option σ) :
+    σ → List Event → Option (List lab)
+  | _, [] => some []
+  | s, e :: es =>
+    match abs s e with
+    | none => none
+    | some ls =>
+      match runA step s ls with
+      | none => none
+      | some s1 => (labelsS abs step s1 es).map (ls ++ ·)
+
+theorem acceptS_nil {σ lab} (abs : σ → Event → Option (List lab)) (step : σ → lab → Option σ) (s : σ) :
+    acceptS abs step s [] = some s := rfl
+
+theorem acceptS_cons {σ lab} (abs : σ → Event → Option (List lab)) (step : σ → lab → Option σ) (s : σ) (e : Event)
+    (es : List Event) :
+    acceptS abs step s (e :: es) =
+      match abs s e with
+      | none => none
+      | some ls => match runA step s ls with
+        | none => none
+        | some s1 => acceptS abs step s1 es := rfl
+
+theorem acceptS_append_eq {σ lab} (abs : σ → Event → Option (List lab)) (step : σ → lab → Option σ) :
+    ∀ (a b : List Event) (s : σ), acceptS abs step s (a ++ b) =
+      match acceptS abs step s a with
+      | some s1 => acceptS abs step s1 b
+      | none => none := by
+  intro a
+  induction a with
+  | nil => intro b s; simp [acceptS_nil]
+  | cons e a ih =>
+    intro b s
+    simp only [List.cons_append, acceptS_cons]
+    cases abs s e with
+    | none => rfl
+    | some ls =>
+      simp only []
+      cases runA step s ls with
+      | none => rfl
+      | some s1 => exact ih b s1
+
+theorem acceptS_append {σ lab} (abs : σ → Event → Option (List lab)) (step : σ → lab → Option σ)
+    (a b : List Event) (s s1 s2 : σ) (h1 : acceptS abs step s a = some s1) (h2 : acceptS abs step s1 b = some s2) :
+    acceptS abs step s (a ++ b) = some s2 := by
+  rw [acceptS_append_eq, h1]; exact h2
+
+theorem acceptS_labels {σ lab} (abs : σ → Event → Option (List lab)) (step : σ → lab → Option σ) :
+    ∀ (evs : List Event) (s s' : σ), acceptS abs step s evs = some s' →
+      ∃ labs, labelsS abs step s evs = some labs ∧ runA step s labs = some s' := by
+  intro evs
+  induction evs with
+  | nil => intro s s' h; simp [acceptS] at h; subst h; exact ⟨[], rfl, rfl⟩
+  | cons e es ih =>
+    intro s s' h
+    simp only [acceptS_cons] at h
+    simp only [labelsS]
+    cases ha : abs s e with
+    | none => simp [ha] at h
+    | some ls =>
+      simp only [ha] at h ⊢
+      cases hr : runA step s ls with
+      | none => simp [hr] at h
+      | some s1 =>
+        simp only [hr] at h ⊢
+        obtain ⟨labs, h1, h2⟩ := ih s1 s' h
+        exact ⟨ls ++ labs, by simp [h1], runA_append step _ _ _ _ _ hr h2⟩
+
+/-- partial-correctness version of `iterate_inv`: about the runs of the loop that return `.ok`; `IE` = invariant of the
+environment at the loop head, `IX` = what holds of the environment when the body leaves the loop -/
+theorem iterate_pc {σ : Type} (run : σ → List Event → Option σ)
+    (run_app : ∀ a b s s1 s2, run s a = some s1 → run s1 b = some s2 → run s (a ++ b) = some s2)
+    (ok : Event → Bool) (IE IX : Env → Prop) (C : Ctl → Prop) (IS : Env → σ → Prop) (Post : Ctl → Env → σ → Prop)
+    (body : Env → List Val → Except String Out)
+    (hbody : ∀ env inp o, IE env → body env inp = .ok o →
+      ((o.ctl = .normal ∨ o.ctl = .cont) → IE o.env) ∧ (¬ (o.ctl = .normal ∨ o.ctl = .cont) → IX o.env) ∧ C o.ctl ∧
+      ∀ s, IS env s → o.events.all ok = true → ∃ s', run s o.events = some s' ∧
+        ((o.ctl = .normal ∨ o.ctl = .cont) → IS o.env s') ∧
+        (¬ (o.ctl = .normal ∨ o.ctl = .cont) → Post o.ctl o.env s')) :
+    ∀ n env inp acc out, IE env → iterate body n env inp acc = .ok out →
+      ((out.ctl = .fuel ∧ IE out.env) ∨ (∃ c, C c ∧ ¬ (c = .normal ∨ c = .cont) ∧ out.ctl = exitCtl c ∧ IX out.env)) ∧
+      ∀ s0 s, run s0 acc = some s → IS env s → out.events.all ok = true →
+        ∃ s', run s0 out.events = some s' ∧
+          ((out.ctl = .fuel ∧ IS out.env s') ∨
+           (∃ c, ¬ (c = .normal ∨ c = .cont) ∧ Post c out.env s' ∧ out.ctl = exitCtl c)) := by
+  intro n
+  induction n with
+  | zero =>
+    intro env inp acc out hE h
+    simp only [iterate, Except.ok.injEq] at h
+    subst h
+    refine ⟨.inl ⟨rfl, hE⟩, ?_⟩
+    intro s0 s hr hS _
+    exact ⟨s, hr, .inl ⟨rfl, hS⟩⟩
+  | succ n ih =>
+    intro env inp acc out hE h
+    simp only [iterate, bind, Except.bind] at h
+    cases hb : body env inp with
+    | error e => simp [hb] at h
+    | ok o =>
+      simp only [hb] at h
+      obtain ⟨hE', hX', hC, hrest⟩ := hbody env inp o hE hb
+      by_cases hc : o.ctl = .normal ∨ o.ctl = .cont
+      · have heq : iterate body n o.env o.inp (acc ++ o.events) = .ok out := by
+          rcases hc with hc | hc <;> simpa [hc] using h
+        obtain ⟨hC2, h2⟩ := ih o.env o.inp (acc ++ o.events) out (hE' hc) heq
+        refine ⟨hC2, ?_⟩
+        intro s0 s hr hS hok
+        have hpre : (acc ++ o.events).all ok = true := by
+          obtain ⟨suf, hsuf⟩ : ∃ suf, out.events = (acc ++ o.events) ++ suf :=
+            iterate_inv.iterate_events body n _ _ _ _ heq
+          rw [hsuf, List.all_append] at hok
+          simp only [Bool.and_eq_true] at hok
+          exact hok.1
+        rw [List.all_append, Bool.and_eq_true] at hpre
+        obtain ⟨s1, hr1, hS1, -⟩ := hrest s hS hpre.2
+        exact h2 s0 s1 (run_app _ _ _ _ _ hr hr1) (hS1 hc) hok
+      · have hout : out = { o with events := acc ++ o.events, ctl := exitCtl o.ctl } := by
+          cases hctl : o.ctl <;> simp_all [exitCtl]
+        subst hout
+        refine ⟨.inr ⟨o.ctl, hC, hc, rfl, hX' hc⟩, ?_⟩
+        intro s0 s hr hS hok
+        simp only [List.all_append, Bool.and_eq_true] at hok
+        obtain ⟨s1, hr1, -, hP⟩ := hrest s hS hok.2
+        exact ⟨s1, run_app _ _ _ _ _ hr hr1, .inr ⟨o.ctl, hc, hP hc, rfl⟩⟩
+
+/-- `iterate_pc` for `exec` of a `.loop` statement, in the form used after `generalize` -/
+theorem loop_pc {σ : Type} (run : σ → List Event → Option σ) (run_nil : ∀ s, run s [] = some s)
+    (run_app : ∀ a b s s1 s2, run s a = some s1 → run s1 b = some s2 → run s (a ++ b) = some s2)
+    (ok : Event → Bool) (IE IX : Env → Prop) (C : Ctl → Prop) (IS : Env → σ → Prop) (Post : Ctl → Env → σ → Prop)
+    {fuel : Nat} {B : Stmt} {env : Env} {inp : List Val} {X : Except String Out}
+    (hL : exec fuel (.loop B) env inp = X)
+    (hbody : ∀ env inp o, IE env → exec fuel B env inp = .ok o →
+      ((o.ctl = .normal ∨ o.ctl = .cont) → IE o.env) ∧ (¬ (o.ctl = .normal ∨ o.ctl = .cont) → IX o.env) ∧ C o.ctl ∧
+      ∀ s, IS env s → o.events.all ok = true → ∃ s', run s o.events = some s' ∧
+        ((o.ctl = .normal ∨ o.ctl = .cont) → IS o.env s') ∧
+        (¬ (o.ctl = .normal ∨ o.ctl = .cont) → Post o.ctl o.env s'))
+    (hE : IE env) (out : Out) (hX : X = .ok out) :
+    ((out.ctl = .fuel ∧ IE out.env) ∨ (∃ c, C c ∧ ¬ (c = .normal ∨ c = .cont) ∧ out.ctl = exitCtl c ∧ IX out.env)) ∧
+      ∀ s, IS env s → out.events.all ok = true →
+        ∃ s', run s out.events = some s' ∧
+          ((out.ctl = .fuel ∧ IS out.env s') ∨
+           (∃ c, ¬ (c = .normal ∨ c = .cont) ∧ Post c out.env s' ∧ out.ctl = exitCtl c)) := by
+  rw [exec.eq_6] at hL
+  subst hX
+  obtain ⟨hC, h3⟩ :=
+    iterate_pc run run_app ok IE IX C IS Post (fun e i => exec fuel B e i) hbody fuel env inp [] out hE hL
+  exact ⟨hC, fun s hS hok => h3 s s (run_nil s) hS hok⟩
 
 /-! ## final forms: source ⊑ generic automaton ⊑ local automaton of an L2 model -/
 
